@@ -123,9 +123,29 @@ def main(argv=None):
             rc = 1
             reported += 1
         else:
-            flaky += 1
-            print("FLAKY key=%s: in-explorer violation did not replay identically in fresh "
-                  "interpreters: %s" % (key, str(outs)[-600:]))
+            # The single case passes in a fresh interpreter.  Either the harness is
+            # nondeterministic, or the violation needs the calls that preceded it in the
+            # explorer task (hidden state in the library).  Decide by replaying the whole
+            # task - a deterministic function of its arguments - in fresh interpreters.
+            t = v.get("task")
+            ok2 = False
+            if t:
+                tv = dict(v, fn="mc.core:replay_task", args={"mod": t["mod"], "task": t["task"], "args": t["args"],
+                                                               "env": t["env"], "key": key})
+                tpath = core.write_replay(a.pid, tv)
+                outs2 = core.confirm_in_fresh_process(a.pid, tpath)
+                ok2 = all(o[0] == 1 for o in outs2)
+                if ok2:
+                    print("violation key=%s sub=%s expected=%s observed=%s (%d occurrence(s)); needs the call "
+                          "history of its explorer task to manifest (passes when run alone in a fresh interpreter)"
+                          % (key, v["sub"], str(v["expected"])[:200], str(v["observed"])[:200], len(vs)))
+                    print("VIOLATION property=%s replay=%s" % (a.pid, tpath))
+                    rc = 1
+                    reported += 1
+            if not ok2:
+                flaky += 1
+                print("FLAKY key=%s: in-explorer violation did not replay identically in fresh "
+                      "interpreters: %s" % (key, str(outs)[-600:]))
             # History-dependent behaviour *is* a violation of C20 only; elsewhere it is a
             # harness problem and must not be reported as a verdict.
     if rc == 0 and flaky:
